@@ -7,8 +7,18 @@
 -/
 import Kopf.Extracted.C19
 import Kopf.Model.C19_Orchestrator
+import Kopf.Model.C19_Wiring
 namespace Kopf.C19.Tie
 
 theorem pass_under_lock : (Orch.init Extracted.lockedPass).lockedPass = true := by decide
+
+/-- The wiring read off /repo's AST (orchestration.orchestrator / spawn_missing_watchers, queueing.watcher): the
+    operator's `operator_paused` ToggleSet is handed over at all three places, so `opStep` is `step`
+    (`wired_stream_is_the_stream`) and every theorem about one watch-stream — `paused_silent`, `fresh_list_on_resume`
+    — is a theorem about every resource watch-stream of the operator. -/
+def extractedWiring : Wiring :=
+  ⟨Extracted.ensembleGetsToggles, Extracted.watcherGetsToggles, Extracted.streamGetsToggles⟩
+
+theorem pause_wired : extractedWiring.wired = true := by decide
 
 end Kopf.C19.Tie
